@@ -79,6 +79,7 @@ func genCase(t *rapid.T) Case {
 	c.UseMap = c.Tree == "name" && rapid.IntRange(0, 3).Draw(t, "usemap") == 0
 	c.Version = rapid.SampledFrom([]int{0, 0, 1, 2}).Draw(t, "version")
 	c.Human = rapid.Bool().Draw(t, "human")
+	c.InStream = rapid.SampledFrom([]bool{false, false, true}).Draw(t, "instream")
 	return c
 }
 
@@ -102,6 +103,9 @@ func classify(c *Case) (bool, []string) {
 	add(o.emptyGaps > 0, "gap-without-room")
 	add(c.UseMap, "writemap")
 	add(c.Human, "human-readable")
+	add(c.InStream, "written-inside-open-stream")
+	add(c.InStream && o.n > maxFan, "written-inside-open-stream>64")
+	add(c.InStream && o.n > maxFan*maxFan, "written-inside-open-stream>4096")
 	for _, k := range []string{"empty-name-key", "non-ascii-key", "nul-in-key", "prefix-neighbours", "adjacent-keys",
 		"last-byte-differs", "min-int64-key", "max-int64-key", "negative-key", "zero-key", "consecutive-ints",
 		"value-null", "value-ref", "value-null-inside", "value-ref-inside"} {
@@ -114,7 +118,7 @@ func classify(c *Case) (bool, []string) {
 
 func render(c *Case) any {
 	return map[string]any{"tree": c.Tree, "n": c.obs.n, "style": c.Style, "leaves": c.obs.leaves, "depth": c.obs.depth,
-		"use_map": c.UseMap, "lookups_file": c.obs.probesFile, "lookups_memory": c.obs.probesMem,
+		"use_map": c.UseMap, "in_stream": c.InStream, "lookups_file": c.obs.probesFile, "lookups_memory": c.obs.probesMem,
 		"gaps_probed": c.obs.gapProbes, "gaps_between_leaves": c.obs.betweenLeaves,
 		"extra": fmt.Sprintf("%d names, %d nums", len(c.ExtraNames), len(c.ExtraNums))}
 }
